@@ -25,6 +25,9 @@ extern "C"
     void AnnotateIgnoreWritesEnd(const char *f, int l) __attribute__((weak));
 }
 
+// plain global read by the pthread_self wrapper (which may run during static initialisation, before Sched::get() is usable)
+extern "C" { int stsim_fiber_identity = 0; }
+
 namespace sim
 {
 
@@ -154,6 +157,7 @@ void Sched::begin_run(const Plan &plan, uint64_t step_limit)
     if (in_run_) throw HarnessError("begin_run while a run is active");
     in_run_ = true;
     cur_ = 0;
+    stsim_fiber_identity = 0;
     steps_ = switches_ = max_conc_ = 0;
     live_ = 0;
     step_limit_ = step_limit;
@@ -184,6 +188,7 @@ std::vector<uint32_t> Sched::end_run()
     }
     fibers_.resize(1);
     cur_ = 0;
+    stsim_fiber_identity = 0;
     in_run_ = false;
     mutex_owner_.clear();
     abort_error_ = nullptr;
@@ -282,6 +287,7 @@ void Sched::switch_to(int next)
     Fiber *to = fibers_[next];
     if (from == to) return;
     cur_ = next;
+    stsim_fiber_identity = in_run_ ? next : 0;
     ++switches_;
     int saved_depth = g_norace_depth;
     if (saved_depth > 0) real_ignore_end();
